@@ -637,12 +637,16 @@ impl IggyConsumer {
                         // Everything the server returned has been consumed already, so the offset
                         // stored on the server lags behind (e.g. it is stored every n-th message
                         // only): store the consumed one, otherwise the next poll returns the same
-                        // messages again and the consumer never advances.
+                        // messages again and the consumer never advances. With the `next` strategy
+                        // the server's answer itself shows the lag, whatever was stored from here
+                        // (another member of the group may have stored an older offset since).
                         if auto_commit_enabled && !auto_commit_after_polling {
                             let stored_offset = last_stored_offset
                                 .get(&partition_id)
                                 .map_or(0, |entry| entry.load(ORDERING));
-                            if stored_offset < consumed_offset {
+                            if stored_offset < consumed_offset
+                                || polling_strategy.kind == PollingKind::Next
+                            {
                                 trace!("Auto-committing the offset: {consumed_offset} in partition ID: {partition_id}, topic: {topic_id}, stream: {stream_id}, consumer: {consumer}");
                                 client
                                     .read()
